@@ -3,11 +3,11 @@ import PedVerif.Lemmas.CallLayer
 namespace PedVerif.Call
 open PedVerif.Checker PedVerif.Gen.CallTables
 
-/-- what a value that takes part in a call has to satisfy for `checkType` to be sound on it (C01): well-formed, plain, and the
+/-- what a value that takes part in a call has to satisfy for `checkType` to be sound on it (C01): well-formed, free of one-shot iterators, and the
     **local** string-annotation guard against every annotation of the signature (`Ann.strAnnOk`: `true` by definition for every
     annotation that is not a string naming no class of the context; for such a string: no class of this value's MRO has that name) -/
 def ValOk (env : Env) (f : Fn) (v : Val) : Prop :=
-  (v.wf env = true ∧ v.plain = true) ∧ ∀ p ∈ f.params, ∀ a, p.ann = some a → a.strAnnOk env v = true
+  (v.wf env = true ∧ v.iterFree = true) ∧ ∀ p ∈ f.params, ∀ a, p.ann = some a → a.strAnnOk env v = true
 
 /-- the side conditions under which `checkType` is sound (C01): class table, annotations, and - per supplied value - `ValOk` -/
 structure SoundCtx (env : Env) (f : Fn) (args : List Val) (kw : List (NameId × Val)) : Prop where
@@ -19,7 +19,7 @@ structure SoundCtx (env : Env) (f : Fn) (args : List Val) (kw : List (NameId × 
 
 /-- a signature without string annotations: the guard part of `ValOk` is free -/
 theorem ValOk.of_no_str {env : Env} {f : Fn} {v : Val} (h : ∀ p ∈ f.params, ∀ a, p.ann = some a → ∀ n, a ≠ .strAnn n)
-    (hv : v.wf env = true ∧ v.plain = true) : ValOk env f v :=
+    (hv : v.wf env = true ∧ v.iterFree = true) : ValOk env f v :=
   ⟨hv, fun p hp a ha => strAnnOk_of_not_str (h p hp a ha) v⟩
 
 theorem lookup_mem {β} {kw : List (NameId × β)} {k : NameId} {v : β} (h : lookup kw k = some v) : (k, v) ∈ kw := by
